@@ -6,6 +6,7 @@ from rules.common import *  # noqa: F401,F403
 import dd
 import extract
 import shell
+from callgraph import callgraph_of
 
 CONFIGS = ['cli']
 LEVEL = 'other'
@@ -371,6 +372,70 @@ def needs_transfer_rule(ctx, F, rid):
 
 
 # ---------------------------------------------------------------- is_excluded
+ABS_SOURCES = ('std::fs::DirEntry::path', 'std::path::Path::join', 'std::fs::canonicalize', 'std::path::Path::canonicalize', 'std::env::current_dir',
+               'tokio::fs::DirEntry::path')
+REL_SOURCES = ('std::path::Path::strip_prefix',)
+
+
+def excluded_callers(ctx, F, rid):
+    """is_excluded matches slash-free patterns against EVERY component of the path it is given: it must be given paths
+    relative to the synchronised root (the keys of the listings).  A caller that hands it an absolute path lets the location
+    of the tree itself take part in the match (`--exclude backup` with a destination under /mnt/backup excludes everything)."""
+    cg = callgraph_of(F)
+    for b, bb, c in cg.call_sites(lambda c: c == 'plan::is_excluded'):
+        if '::tests' in b.path or b.path.startswith('plan::is_excluded'):
+            continue
+        t = b.blocks[bb]['term']
+        work = [(b, t['args'][0])]
+        verdict, why, steps = None, '', 0
+        seen = set()
+        while work and steps < 60 and verdict is None:
+            steps += 1
+            body, op = work.pop()
+            bfl = flow_of(body)
+            for o in bfl.origins(op):
+                k = (body.path, o.kind, str(o.key), o.bb, tuple(o.path))
+                if k in seen or o.kind == 'comb':
+                    continue
+                seen.add(k)
+                if o.kind == 'call' and o.key in ABS_SOURCES:
+                    verdict, why = 'abs', '%s in %s' % (o.key.split('::')[-1], body.path.split('::{')[0])
+                elif o.kind == 'call' and o.key in REL_SOURCES:
+                    continue
+                elif o.kind == 'call' and o.key == 'std::iter::Iterator::next':
+                    continue        # an element of a listing (keys of the metadata maps are relative by construction: C19.R4 / C14.R6)
+                elif o.kind in ('param', 'upvar') and body.kind == 'closure' and o.kind == 'param' and o.key >= 2:
+                    acts = closure_actuals(F, body, o.key - 1)
+                    if acts is None:
+                        verdict, why = 'unknown', 'closure parameter of %s' % body.path
+                    else:
+                        work.extend(acts)
+                elif o.kind == 'upvar' and body.parent and o.key is not None:
+                    pb = F.body(body.parent)
+                    for blk in pb.blocks:
+                        for st in blk['stmts']:
+                            rv = st['rv']
+                            if rv['k'] == 'agg' and rv.get('ak') in ('closure', 'coroutine') and norm(rv.get('def')) == body.path and int(o.key) < len(rv['ops']):
+                                work.append((pb, rv['ops'][int(o.key)]))
+                elif o.kind == 'param':
+                    top = F.body(body.path.split('::{')[0])
+                    if top is not None and top.path in ('plan::build_plan',):
+                        continue
+                    verdict, why = 'unknown', 'parameter %s of %s' % (o.key, body.path)
+                elif o.kind == 'call' and o.bb is not None:
+                    for a in body.blocks[o.bb]['term']['args'][:1]:
+                        if a['k'] != 'const':
+                            work.append((body, a))
+        key = 'is_excluded:called-with-relative-path:%s' % b.path.split('::{')[0].split('::')[-1]
+        if verdict == 'abs':
+            ctx.bad(rid, key, 'is_excluded is given a path that is not relative to the synchronised root (%s): the directories the tree itself lives in take part in the '
+                    'exclude match, so a pattern that matches the destination\'s own location empties its listing and the whole unchanged tree is sent again' % why, term_loc(b, bb))
+        elif verdict == 'unknown':
+            ctx.undecided(rid, 'is_excluded call in %s: where its path comes from is not followed (%s)' % (b.path, why))
+        else:
+            ctx.ok(rid, key, 'path argument is an element of a listing / a stripped path', term_loc(b, bb))
+
+
 def excluded_rules(ctx, F, rid):
     ctx.rule(rid, 'is_excluded dispatch / glob_match metacharacter precedence', floor=4)
     b = F.body('plan::is_excluded')
@@ -379,6 +444,7 @@ def excluded_rules(ctx, F, rid):
     fl = flow_of(b)
     cfg = fl.cfg
     rel_i, exc_i = 1, 2
+    excluded_callers(ctx, F, rid)
     globs = fl.calls_to('plan::glob_match')
     # "the pattern contains a slash": str::contains('/'), or str::find('/') examined with is_some / is_none
     c_true, c_false = set(), set()
@@ -533,6 +599,19 @@ def glob_rules(ctx, F, rid, key_prefix='glob_match'):
         ctx.missing(rid, 'plan::glob_match')
     fl = flow_of(b)
     cfg = fl.cfg
+    # `?` stands for exactly one CHARACTER and `*` for a run of characters: a matcher that walks the UTF-8 bytes of the text
+    # lets `?` consume one byte of a multi-byte character (`caf?.txt` no longer matches `café.txt`) - unless it steps by
+    # character boundaries, which is outside this model
+    bytewise = [(bb, t) for bb, t in fl.calls(lambda c: c.endswith('str>::as_bytes') or c.endswith('str>::bytes') or c.endswith('::as_encoded_bytes'))
+                if any(o.kind == 'param' and o.key == 2 for o in fl.origins(t['args'][0]))]
+    boundary = fl.calls(lambda c: 'is_char_boundary' in c or 'utf8_char_width' in c or c.endswith('::len_utf8') or c.endswith('char_indices'))
+    if bytewise and not boundary:
+        ctx.bad(rid, '%s:character-wise' % key_prefix, 'glob_match walks the bytes of the text, so `?` matches one byte instead of one character: a pattern with `?` does not '
+                'match a name whose character at that position is not ASCII (an excluded file is transferred, or deleted under --delete)', term_loc(b, bytewise[0][0]))
+        return
+    if bytewise:
+        ctx.undecided(rid, 'glob_match walks bytes with its own character-boundary handling')
+        return
 
     def side(os_):
         """'pat' / 'text' / None for an element read out of the pattern / text character vector."""
